@@ -6,7 +6,7 @@ from typing import Any, Dict
 from .. import gen, hta
 from ..core import Prop
 from .c04 import breakdown_cfg
-from .common import case_from_cfg, frame_rows, write_and_load
+from .common import case_from_cfg, draw_prefix, frame_rows, write_and_load
 
 
 class C07(Prop):
@@ -30,6 +30,7 @@ class C07(Prop):
                 cfg.streams = (7, 9)
             case = case_from_cfg(rng, cfg)
             if all(any(e.get("name") in gen.K_COMM for e in r["events"]) for r in case["ranks"]):
+                case["prefix"] = draw_prefix(rng)
                 return case
         raise RuntimeError("could not generate communication kernels on every rank")
 
